@@ -362,4 +362,40 @@ def run_shard(tier, idx, nshards, rec, known):
         cls = ['backend:' + case['backend'], 'form:' + case['form'], f'parts:{len(case["parts"])}',
                f'aliases:{min(nal, 3)}'] + sorted(events)
         rec.case(case, nt, cls, size=len(case['requests']))
-    return [drive(one, st_case(), N[tier], rec, known, seed() * 1000 + idx)]
+    from ..common import Outcome
+    o0 = Outcome()
+    if idx == 0:
+        # enumerated first: descriptions whose ONLY irregularity needs three members / three parts to exist
+        def ex(n, ids):
+            return {e: {'v': f'{n}-{e}', 'tags': [0, e]} for e in ids}
+        fixed = []
+        # (a) an alias of three datasets, the FIRST and the LAST share an example id (every order of the members)
+        for members in (['train', 'dev', 'test'], ['test', 'train', 'dev'], ['dev', 'test', 'train'],
+                        ['train', 'dev', 'test', 'extra']):
+            d = {'train': ex('train', ['a', 'b']), 'dev': ex('dev', ['c']), 'test': ex('test', ['d', 'a']),
+                 'extra': ex('extra', ['e'])}
+            fixed.append({'parts': [{'datasets': d, 'alias': {'all': members}}],
+                          'requests': [['get', 'all', False], ['get', 'train', True], ['get', 'all', False]]})
+        # (b) three parts: a name introduced by the SECOND part (alias or dataset) comes again in the THIRD
+        for second, third in (('alias', 'alias'), ('alias', 'datasets'), ('datasets', 'alias'), ('datasets', 'datasets')):
+            p1 = {'datasets': {'train': ex('train', ['a'])}}
+            p2 = {'datasets': {'dev': ex('dev', ['b'])}}
+            p3 = {'datasets': {'test': ex('test', ['c'])}}
+            for part, kind_ in ((p2, second), (p3, third)):
+                if kind_ == 'alias':
+                    part['alias'] = {'mix': ['train']}
+                else:
+                    part['datasets']['mix'] = ex('mix', ['d'])
+            fixed.append({'parts': [p1, p2, p3], 'requests': [['get', 'mix', False], ['get', 'train', False]]})
+        for base in fixed:
+            for backend in ('dict', 'json'):
+                for form in ('varargs', 'list'):
+                    case = dict(base, backend=backend, form=form, second_db=False, rewrite=False, share_objs=False)
+                    try:
+                        one(case)
+                    except Violation as v:
+                        if known.match(v.sig):
+                            continue
+                        o0.violation = (case, v.sig, v.detail)
+                        return [o0]
+    return [o0, drive(one, st_case(), N[tier], rec, known, seed() * 1000 + idx)]
